@@ -56,11 +56,41 @@ class Case:
                                                                   else [str(x) for x in v] if k == "w"
                                                                   else np.asarray(v).tolist() if k == "valid" else v)
                                                               for k, v in self.weights.items()},
-                "ignore": self.ignore, "fmt": list(self.fmt), "p": None if self.p is None else str(self.p)}
+                "ignore": self.ignore, "fmt": [x if isinstance(x, (str, int, float)) else str(x) for x in self.fmt],
+                "p": None if self.p is None else str(self.p)}
 
     # ---- arguments for the real code -------------------------------------------------------------
     def fact_arg(self, rnd):
+        """the SAME Python objects are handed to every evaluation of this instance (and of instances that share its
+        arguments): a call that modified them would corrupt what later calls see, as it would for a real caller"""
+        if getattr(self, "_fa", None) is None:
+            self._fa = self._build_fact_arg(rnd)
+        return self._fa
+
+    def share_args_with(self, other):
+        self._fa = getattr(other, "_fa", None)
+        self._wa = getattr(other, "_wa", None)
+        self._wa_built = getattr(other, "_wa_built", False)
+
+    def _build_fact_arg(self, rnd):
         f = self.fact
+        if f["dtype"] == "datetime":
+            n, K = len(f["vals"]), f["K"]
+            days = np.array([[int(x) for x in r] for r in f["vals"]], dtype="int64").reshape((n, K))
+            valid = np.asarray(f["valid"], dtype=bool).reshape((n, K))
+            arr = days.astype("datetime64[D]")
+            if f["form"] == "nan":
+                arr = arr.copy()
+                arr[~valid] = np.datetime64("NaT")
+                out = arr
+            else:
+                arr = arr.copy()
+                for idx in zip(*np.where(~valid)):
+                    arr[idx] = rnd.choice([np.datetime64("NaT"), np.datetime64("1999-01-01")])
+                out = (arr, valid.copy())
+            if f["oned"]:
+                out = (out[0][:, 0].copy(), out[1][:, 0].copy()) if isinstance(out, tuple) else out[:, 0].copy()
+            return out
         vals = np.array([[float(x) for x in r] for r in f["vals"]], dtype=float).reshape((len(f["vals"]), f["K"]))
         valid = np.asarray(f["valid"], dtype=bool).reshape(vals.shape)
         if f["form"] == "nan":
@@ -83,6 +113,12 @@ class Case:
         return out
 
     def weights_arg(self, rnd):
+        if not getattr(self, "_wa_built", False):
+            self._wa = self._build_weights_arg(rnd)
+            self._wa_built = True
+        return self._wa
+
+    def _build_weights_arg(self, rnd):
         w = self.weights
         if w is None:
             return None
@@ -190,7 +226,7 @@ class CubeRecorder:
                   "fvalid": [] if case.fact is None else np.asarray(case.fact["valid"], dtype=bool).reshape((n, K)).tolist(),
                   "wkind": "none" if case.weights is None else case.weights["kind"],
                   "w": [], "wvalid": [], "ignore": bool(case.ignore), "fmt": case.fmt[0],
-                  "null": rat(Fraction(case.fmt[1])) if len(case.fmt) > 1 else [0, 1],
+                  "null": ([0, 1] if isinstance(case.fmt[1], np.datetime64) else rat(Fraction(case.fmt[1]))) if len(case.fmt) > 1 else [0, 1],
                   "p": rat(case.p) if case.p is not None else [0, 1], "commons": [],
                   "sparse": False, "cells": [], "shapeok": bool(shapeok), "exc": exc is not None,
                   "memsame": bool(memsame)}
@@ -224,7 +260,11 @@ class CubeRecorder:
                 if K and not oned:
                     ix = ix + ((k - 1, k2 - 1) if matrix else (k - 1,))
                 v = vals[ix] if ix else vals[()]
-                v = float(v)
+                if isinstance(v, np.datetime64) or getattr(v, "dtype", np.dtype(float)).kind == "M":
+                    nat = bool(np.isnat(v))
+                    v = float("nan") if nat else float(np.asarray(v).astype("datetime64[D]").astype("int64"))
+                else:
+                    v = float(v)
                 if case.fmt[0] == "nan":
                     miss = "y" if math.isnan(v) else "n"
                 elif case.fmt[0] == "tuple":
